@@ -12,6 +12,7 @@ func init() {
 	register("C19", "R1", 8, "every secret-bearing flag is bound through a redactor: Userinfo, upstream proxy URL, credentials and every certificate/key file flag are registered with NewValueWithRedact/NewSliceValueWithRedact and the redactor that matches their type", c19r1)
 	register("C19", "R2", 5, "redactors do not leak: their results do not depend on the password; the data: prefix that the inline redactors hide is the same prefix the loader accepts as inline material", c19r2)
 	register("C19", "R3", 3, "the configuration dump is redacted: the unredacted value is used only under the Unredacted option, which no production describer sets", c19r3)
+	register("C19", "R5", 2, "a module's own log-http mode is never replaced by the default: in httplogUpdate a value taken from an unnamed entry is stored only into modules no named entry matched (or strictly before the named entries are applied) - otherwise `proxy:url,headers` logs the proxy's requests with headers, Authorization included", c19r5)
 	register("C19", "R4", 8, "no secret reaches a diagnostic sink by type or by source: URL, Userinfo and HostPortUser values are never boxed into an interface (formatted or logged) in production code; Password(), Userinfo.String and the unredacted HostPortUser printer are called only where a credential is built or compared; key-file strings are logged only through the data: redactor", c19r4)
 }
 
@@ -276,5 +277,73 @@ func c19r4(r *R) {
 				}
 			}
 		})
+	}
+}
+
+func c19r5(r *R) {
+	fn := r.fn("bind", "httplogUpdate")
+	type st struct {
+		ins   *ssa.Store
+		named bool
+	}
+	var stores []st
+	markers := map[string]bool{}
+	eachInstr(fn, func(ins ssa.Instruction) {
+		s, ok := ins.(*ssa.Store)
+		if !ok {
+			return
+		}
+		a := describe(s.Addr)
+		if !(strings.HasPrefix(a, "$0[") && strings.HasSuffix(a, "].Param")) {
+			return
+		}
+		named := guardedBy(s.Block(), func(g string) bool {
+			return !strings.HasPrefix(g, "!") && strings.Contains(g, " == ") && strings.Contains(g, "$0[") && strings.Contains(g, "$1[") && strings.Count(g, "].Name") == 2
+		})
+		stores = append(stores, st{s, named})
+		if named {
+			for _, o := range s.Block().Instrs {
+				if m, ok := o.(*ssa.Store); ok {
+					if ia, ok := m.Addr.(*ssa.IndexAddr); ok {
+						if b, isC := m.Val.(*ssa.Const); isC && b.Value != nil && b.Value.String() == "true" {
+							markers[describe(ia.X)] = true
+						}
+					}
+				}
+			}
+		}
+	})
+	nNamed := 0
+	for _, s := range stores {
+		if s.named {
+			nNamed++
+			r.ok("httplogUpdate#named-store", s.ins.Pos(), "a module takes the mode of the entry that names it")
+		}
+	}
+	if nNamed == 0 {
+		r.bad("httplogUpdate#named-store", fn.Pos(), "no store applies an entry to the module it names")
+	}
+	for _, s := range stores {
+		if s.named {
+			continue
+		}
+		unmatched := guardedBy(s.ins.Block(), func(g string) bool {
+			if !strings.HasPrefix(g, "!") {
+				return false
+			}
+			for m := range markers {
+				if strings.HasPrefix(g[1:], m+"[") {
+					return true
+				}
+			}
+			return false
+		})
+		before := true
+		for _, o := range stores {
+			if o.named && (reaches(o.ins, s.ins) || o.ins == s.ins) {
+				before = false
+			}
+		}
+		r.check(unmatched || before, "httplogUpdate#default-store", s.ins.Pos(), "the default reaches only modules no named entry matched", "a value that is not the module's own named entry is stored without checking that no named entry matched (and after named entries may have been applied): the default overrides `module:mode`")
 	}
 }
